@@ -35,6 +35,7 @@ class GoZero (α : Type) where
 instance : GoZero Int := ⟨0⟩
 instance : GoZero Bool := ⟨false⟩
 instance : GoZero Unit := ⟨()⟩
+instance : GoZero UInt8 := ⟨0⟩
 instance : GoZero GoString := ⟨[]⟩
 instance {α} : GoZero (Option α) := ⟨none⟩
 instance {α} : GoZero (List α) := ⟨[]⟩
@@ -113,6 +114,25 @@ def goRange {α ρ σ : Type} (l : List α) (init : σ) (body : σ → α → Lo
     | .next s => goRange xs s body after
     | .brk s => after s
 
+/-- `for cond { body }`: at most `fuel` rounds; `out` is the result when the fuel runs out (the translator puts a
+    panic of its own kind there, which the theorems about the translated function exclude) -/
+def goWhile {ρ σ : Type} (fuel : Nat) (init : σ) (cond : σ → Bool) (body : σ → LoopStep ρ σ) (after : σ → ρ) (out : ρ) : ρ :=
+  match fuel with
+  | 0 => out
+  | n + 1 =>
+    if cond init then
+      match body init with
+      | .ret r => r
+      | .next s => goWhile n s cond body after out
+      | .brk s => after s
+    else after init
+
+/-- `x[i]` does not panic -/
+def goInRange {α : Type} [GoLen α] (l : α) (i : Int) : Bool := decide (0 ≤ i ∧ i < GoLen.len l)
+
+/-- `x[lo:hi]` does not panic (slices of strings and of slices that were never longer than they are now) -/
+def goSliceOk {α : Type} [GoLen α] (l : α) (lo hi : Int) : Bool := decide (0 ≤ lo ∧ lo ≤ hi ∧ hi ≤ GoLen.len l)
+
 /-- `regex.Regex` is opaque: a compiled expression identified by its source text and flag names -/
 structure GoRegex where
   src : GoString := []
@@ -151,5 +171,9 @@ structure Ext where
   /-- a method of the translated package that is outside the subset (reflection, file I/O) and
       returns a list of strings, by its name -/
   strList : GoString → List GoString := fun _ => []
+  /-- rounds a `for cond {…}` loop may take -/
+  fuel : Nat := 0
+  /-- `funcs.NewFunctionStack`: the function names, the innermost argument, an error -/
+  newFunctionStack : GoString → List GoString × GoString × GoErr := fun s => ([], s, none)
 
 end Dtail.Go
